@@ -4,7 +4,7 @@
    while the removed total is still short).  [bytes_removed_for_every_entry] is regenerated from put_impl on every run. *)
 From Coq Require Import ZArith NArith Bool List.
 Import ListNotations.
-From XetModel Require Import Base.Codec Gen.CacheFacts Model.Merkle Model.Cache Proofs.CacheProofs Proofs.CacheInvProofs Proofs.CacheOrphanProofs.
+From XetModel Require Import Base.Codec Gen.CacheFacts Model.Merkle Model.Cache Proofs.CacheProofs Proofs.CacheInvProofs Proofs.CacheOrphanProofs Proofs.CacheScanProofs.
 Open Scope N_scope.
 
 (* num_items and total_bytes equal the count and the summed lengths of the tracked entries after every micro step of
@@ -49,9 +49,27 @@ Proof. reflexivity. Qed.
 Example C13_nonvacuous : Acc ex_s0 /\ exists c', crun (ex_s0, [PDone COk]) [EStart 0 ex_put; EStep 0 []; EStep 0 []; EStep 0 []; EStep 0 []] = Some c' /\ tbytes (fst c') = 21.
 Proof. split; [split; reflexivity|]. eexists. split; [vm_compute; reflexivity | reflexivity]. Qed.
 
+(* re-opening: when DiskCache::initialize succeeds on a directory listing in which no two key directories decode to the
+   same key (every directory the cache wrote itself), the counters it reports are exactly the count and the summed lengths
+   of the entries it tracks (b64d/utf8: the name decoders, arbitrary) *)
+Theorem C13_scan_accounting : forall b64d utf8 capacity tree s,
+  NoDup (keys_of_tree b64d utf8 tree) -> initialize b64d utf8 capacity tree = Some (inr s) -> Acc s.
+Proof. exact initialize_acc. Qed.
+(* the premise is needed (a copy of a key directory planted under a prefix directory that differs only in letter case is
+   counted twice and tracked once); replayed on the real cache, see DESIGN.md 12.3, observations *)
+Theorem C13_scan_duplicate_key_refuted :
+  exists s, initialize (fun b => Some b) (fun _ => true) 100 sx_tree = Some (inr s) /\ nitems s = 2 /\ total_count (tracked s) = 1 /\ ~ Acc s.
+Proof. exact scan_duplicate_key_refuted. Qed.
+Example C13_scan_accounting_nonvacuous :
+  let tree := [ {| p_name := [65; 66]; p_kind := 1; p_keys := [sx_kdir] |} ] in
+  NoDup (keys_of_tree (fun b => Some b) (fun _ => true) tree) /\
+  exists s, initialize (fun b => Some b) (fun _ => true) 100 tree = Some (inr s) /\ nitems s = 1.
+Proof. exact scan_acc_example. Qed.
+
 Print Assumptions C13_step_keeps_counters_exact.
 Print Assumptions C13_counters_exact_every_schedule.
 Print Assumptions C13_capacity_after_insert.
 Print Assumptions C13_drift_refuted.
 Print Assumptions C13_no_orphan_every_schedule.
 Print Assumptions C13_quiescent_every_file_tracked.
+Print Assumptions C13_scan_accounting.
